@@ -472,7 +472,7 @@ impl Ref {
 
     // ---- proofs ------------------------------------------------------------
 
-    fn challenge(&self, s: Suite, api: &[u8], disc: &[(u64, Scalar)], abar: &G1Projective, bbar: &G1Projective, d: &G1Projective, t1: &G1Projective, t2: &G1Projective, dom: &Scalar, ph: &[u8]) -> Scalar {
+    pub fn challenge(&self, s: Suite, api: &[u8], disc: &[(u64, Scalar)], abar: &G1Projective, bbar: &G1Projective, d: &G1Projective, t1: &G1Projective, t2: &G1Projective, dom: &Scalar, ph: &[u8]) -> Scalar {
         let env: Env = vec![
             ("R", Val::U64(disc.len() as u64)),
             ("disc", Val::Pairs(disc.to_vec())),
